@@ -64,7 +64,8 @@ REQUIRE.update({"op_%s" % _o: 8 for _o in ("echo", "store", "find", "get", "move
                                            "n_create", "n_delete", "n_event_report")})
 MAX_INCONCLUSIVE_FRAC = 0.03
 
-DIMSE_TIMEOUT = 0.4
+DIMSE_TIMEOUT = 0.4               # streams that contain silence
+DIMSE_TIMEOUT_NO_SILENCE = 2.5    # all other streams never wait for it (robust under machine load)
 WATCHDOG = 12.0
 
 VER = "1.2.840.10008.1.1"
@@ -481,7 +482,10 @@ class Acceptor:
     def _accept_loop(self):
         first = True
         while not self.stop.is_set() and time.time() < self.deadline:
-            p = self.lst.accept(0.2)
+            try:
+                p = self.lst.accept(0.2)
+            except OSError:     # listener closed by close()
+                return
             if p is None:
                 continue
             t = threading.Thread(target=self._guard, args=(self._scripted if first else self._plain, p), daemon=True)
@@ -928,6 +932,27 @@ def _sig(case):
 
 
 def run_case(case):
+    """Run the case; a case with violations is re-run once immediately and only the mechanism keys seen in BOTH runs are
+    reported (machine load can make a 0.4 s DIMSE timeout expire early); keys that do not reproduce make the case
+    inconclusive, never 'held'."""
+    r1 = _run_once(case)
+    if not r1["violations"]:
+        return r1
+    r2 = _run_once(case)
+    k2 = {v["key"] for v in r2["violations"]}
+    both = [v for v in r1["violations"] if v["key"] in k2]
+    lost = sorted({v["key"] for v in r1["violations"]} - k2)
+    counters = dict(r1["counters"])
+    counters["cases_rerun"] = 1
+    if lost:
+        counters["violation_keys_not_reproduced"] = len(lost)
+    inc = r1["inconclusive"]
+    if lost and not both:
+        inc = inc or "violation(s) %r of the first run did not reproduce on the immediate re-run (load?)" % lost[:4]
+    return dict(r1, violations=both, counters=counters, inconclusive=inc)
+
+
+def _run_once(case):
     from pynetdicom import build_role, evt
     from pydicom.uid import ImplicitVRLittleEndian
     taps.reset()
@@ -942,7 +967,8 @@ def run_case(case):
     def C(name, n=1):
         counters[name] = counters.get(name, 0) + n
 
-    ae = harness.make_ae("VERIF-SCU", timeouts=(4.0, DIMSE_TIMEOUT, 8.0, 4.0),
+    dimse_timeout = DIMSE_TIMEOUT if any(s_["a"] == "silence" for s_ in case["script"]) else DIMSE_TIMEOUT_NO_SILENCE
+    ae = harness.make_ae("VERIF-SCU", timeouts=(4.0, dimse_timeout, 8.0, 4.0),
                          requested=[(u, ImplicitVRLittleEndian) for u in ALL_ABSTRACT])
     acc = Acceptor(case)
     acc.start()
@@ -1007,9 +1033,11 @@ def run_case(case):
             for suffix, detail in compare(case, obs, ref["yields"]):
                 if stolen and ref["end"] == "established" and suffix in ("missing-yield", "response-skipped", "wrong-value|status-not-empty", "wrong-value|status"):
                     continue        # reported once below as reactor-consumed-response
-                if cat == "wrong-type" and suffix == "wrong-value|status-not-empty":
+                if cat == "wrong-type" and suffix in ("wrong-value|status-not-empty", "extra-yield-after-end"):
                     V("wrong-type|%s|accepted-as-response" % op, "a %s was taken as the response of %s; " % (
                         [s_["kind"] for s_ in case["script"] if s_["a"] == "rsp" and s_["kind"] != RSP_KIND[op]][:1], RQ_KIND[op]) + detail)
+                elif cat == "wrong-type":
+                    V("wrong-type|%s|%s" % (op, suffix), detail + " ; all yields: %r" % obs[:10])
                 else:
                     V("%s|%s|%s" % (op, cat, suffix), detail + " ; all yields: %r" % obs[:10])
             # observations the documentation is silent about
@@ -1096,6 +1124,9 @@ def run_case(case):
                 C("extras_followup_released_%s" % fo.get("released"))
         # ---- exceptions that escaped in any pynetdicom thread
         for e in taps.State.excs:
+            if not e["where"] and e["thread"] != "unraisable":
+                C("harness_thread_exceptions")      # no pynetdicom frame: a thread of this harness, not an observation
+                continue
             V("%s|%s|thread-exception|%s|%s" % (op, cat, e["type"], e["where"]), "%r" % e)
     finally:
         acc.close()
